@@ -32,6 +32,7 @@ FIXED = [
     (["C18"], "D13", "fix: is_equal compared only the first child", "trees differing in the second child compared equal"),
     (["C19"], "D14a", "fix: evaluation raised on para", "abstract/para without own text raised TypeError from evaluate.tree"),
     (["C19"], "D14b", "fix: evaluation raised on para", "parentless empty description raised AttributeError from evaluate.node"),
+    (["C06"], "D15", "fix: add_child shares the parent's namespace map only when", "child map {q:v, p:u} under parent {p:u, q:v} reloaded from JSON in the parent's key order; re-serialised text differed"),
 ]
 FINDINGS = [
     {"id": "D8b-software", "property": "C10", "key": "C10:unknown-child:emlRule:software", "rule": "emlRule", "child": "software",
